@@ -307,7 +307,7 @@ fn run(args: &Args) {
     let mut rng = Rng::new(args.seed);
     let mult = if args.thorough { 10 } else { 1 };
 
-    // (a) contours: exhaustive masks up to 4x4 (thorough: 4x5 and 5x4), both modes
+    // (a) contours: exhaustive masks up to 4x4 (thorough: also 4x5), both modes
     let mut sizes: Vec<(usize, usize)> = vec![(0, 0), (0, 3), (3, 0)];
     for r in 1..=4 {
         for c in 1..=4 {
@@ -316,7 +316,6 @@ fn run(args: &Args) {
     }
     if args.thorough {
         sizes.push((4, 5));
-        sizes.push((5, 4));
     }
     for &(r, c) in &sizes {
         let n = r * c;
